@@ -22,8 +22,16 @@ SHARDS = {"quick": 12, "thorough": 14}
 CASE_FUEL = 200000
 
 
+BIG = 2 ** 53 + 1
+
+
 def run_case(case, ctx):
     ivs = [tuple(x) for x in case["ivs"]]
+    if case.get("big") and all(isinstance(v, int) for iv in ivs for v in iv):
+        # bounds and keys are numbers of any size: integers that a C double cannot hold exactly are compared exactly
+        ivs = [(a + BIG, b + BIG) for a, b in ivs]
+        case = dict(case, probes=[p + BIG for p in case.get("probes", []) if isinstance(p, int)], grid=[])
+        ctx.label("bounds-beyond-2**53")
     # values are arbitrary objects: None and falsy ones among them (a lookup that returns None is a hit, not a miss)
     m = {k: [None, "v%d" % i, 0, "", False, "v%d" % i][i % 6] for i, k in enumerate(ivs)}
     uniq = list(m)
@@ -145,7 +153,7 @@ def strategies(tier):
     disjoint = st.lists(st.integers(0, 40), min_size=2, max_size=12, unique=True).flatmap(
         lambda ps: st.permutations([[a / 2, b / 2] for a, b in zip(sorted(ps)[0::2], sorted(ps)[1::2])]))
     case = st.one_of(
-        st.fixed_dictionaries({"ivs": st.lists(mostly_valid(ints), max_size=6), "probes": st.lists(st.integers(-1, 15), max_size=3), "again": st.integers(0, 3)}),
+        st.fixed_dictionaries({"ivs": st.lists(mostly_valid(ints), max_size=6), "probes": st.lists(st.integers(-1, 15), max_size=3), "again": st.integers(0, 3), "big": st.sampled_from([False, False, True])}),
         st.fixed_dictionaries({"ivs": st.lists(mostly_valid(dy), max_size=6), "probes": st.lists(st.integers(-2, 58).map(lambda i: i / 4), max_size=3), "again": st.integers(0, 3)}),
         st.fixed_dictionaries({"ivs": st.lists(raw(ints), max_size=4), "probes": st.just([])}),
         st.fixed_dictionaries({"ivs": disjoint, "probes": st.lists(st.integers(-2, 82).map(lambda i: i / 4), max_size=4), "again": st.integers(0, 3)}),
